@@ -459,3 +459,45 @@ M('c01-find-strips-trailing-slash', 'C01', 'R14', F, SPLIT, "        path = uri.
 M('c01-find-refuses-dot-dot', 'C01', 'R14', F, SPLIT, "        if '..' in uri:\n            return None\n" + SPLIT)
 # negative controls (exit 0): the split in two statements; re.sub('^/+', '', uri).split('/'); list(...) around it;
 # `while uri.startswith('/'): uri = uri[1:]`
+
+# R8 wave 8: the pruning predicate is evaluated on the node kinds, var_name / var_pattern included (s8-c01-3)
+VARN = "                var_nodes = [node for node in nodes if node.is_var]\n                found_var_nodes = bool(var_nodes)\n"
+M('c01-prune-by-var-name', 'C01', 'R8', F, VARN,
+  "                found_var_nodes = any(node.var_name is not None for node in nodes)\n")
+M('c01-prune-by-var-pattern', 'C01', 'R8', F, VARN,
+  "                found_var_nodes = any(node.var_pattern is not None for node in nodes)\n")
+M('c01-prune-by-var-name-truthiness-helper', 'C01', 'R8', F, VARN,
+  "                var_nodes = [node for node in nodes if node.var_name is not None and not node.is_complex]\n"
+  "                found_var_nodes = bool(var_nodes)\n")
+# negative controls (exit 0): any(node.var_name is not None or node.is_complex ...); any(node.var_name is not None or
+# node.var_pattern is not None ...); any(node.num_fields for node in nodes)
+
+# R15 the multi-segment decision is the flag of the registered converter, whatever its type (s8-c01-1)
+CMS = "    return getattr(converter, 'CONSUME_MULTIPLE_SEGMENTS', False)\n"
+M('c01-multi-segment-baseconverter-only', 'C01', 'R15', C, CMS,
+  "    klass = converter if isinstance(converter, type) else type(converter)\n"
+  "    if not issubclass(klass, BaseConverter):\n        return False\n\n    return klass.CONSUME_MULTIPLE_SEGMENTS\n")
+M('c01-multi-segment-isinstance-gate', 'C01', 'R15', C, CMS,
+  "    if isinstance(converter, BaseConverter):\n        return converter.CONSUME_MULTIPLE_SEGMENTS\n"
+  "    return isinstance(converter, type) and getattr(converter, 'CONSUME_MULTIPLE_SEGMENTS', False)\n")
+M('c01-multi-segment-no-default', 'C01', 'R15', C, CMS, "    return converter.CONSUME_MULTIPLE_SEGMENTS\n")
+M('c01-multi-segment-path-converter-only', 'C01', 'R15', C, CMS,
+  "    klass = converter if isinstance(converter, type) else type(converter)\n    return issubclass(klass, PathConverter)\n")
+# negative controls (exit 0): bool(getattr(...)); klass = converter if isinstance(converter, type) else type(converter);
+# return getattr(klass, FLAG, False); hasattr(...) and converter.CONSUME_MULTIPLE_SEGMENTS; try/except AttributeError
+
+# R16 the text the validator accepts is the text the node stores (s8-c01-2)
+CNAME_V = "            name = field.group('cname')\n            if name:\n"
+M('c01-validator-strips-converter-name', 'C01', 'R16', F, CNAME_V,
+  "            name = (field.group('cname') or '').strip()\n            if name:\n")
+M('c01-validator-lowercases-converter-name', 'C01', 'R16', F,
+  "                if name not in self._converter_map:\n",
+  "                if name.lower() not in self._converter_map:\n")
+M('c01-validator-strips-field-name', 'C01', 'R16', F,
+  "            name = field.group('fname')\n\n            is_identifier",
+  "            name = field.group('fname').strip()\n\n            is_identifier")
+M('c01-node-stores-lowercased-converter-name', 'C01', 'R16', F,
+  "                            field.group('cname'),\n",
+  "                            field.group('cname').lower(),\n")
+# negative controls (exit 0): the strip on BOTH sides; the node alone strips (every accepted name is already stripped);
+# `cname = field.group('cname')` held in a local of the constructor; `(field.group('cname') or '')` in the validator
